@@ -11,7 +11,20 @@ import (
 	"github.com/Tnze/go-mc/nbt"
 )
 
+// maxNestingDepth is the limit package nbt has for binary and stringified NBT: values nested
+// deeper are refused (every level costs a stack frame, and a goroutine that exhausts its stack
+// cannot be recovered).
+const maxNestingDepth = 10000
+
 func (v *Value) UnmarshalNBT(tagType byte, r nbt.DecoderReader) error {
+	return v.unmarshal(tagType, r, 0)
+}
+
+// unmarshal reads a value that is nested in depth lists and compounds.
+func (v *Value) unmarshal(tagType byte, r nbt.DecoderReader, depth int) error {
+	if (tagType == nbt.TagList || tagType == nbt.TagCompound) && depth > maxNestingDepth {
+		return errors.New("exceeded max nesting depth")
+	}
 	v.tag = tagType
 	var buf [8]byte
 	switch tagType {
@@ -97,7 +110,7 @@ func (v *Value) UnmarshalNBT(tagType byte, r nbt.DecoderReader) error {
 
 		for i := int32(0); i < length; i++ {
 			field := new(Value)
-			err = field.UnmarshalNBT(t, r)
+			err = field.unmarshal(t, r, depth+1)
 			if err != nil {
 				return err
 			}
@@ -117,7 +130,7 @@ func (v *Value) UnmarshalNBT(tagType byte, r nbt.DecoderReader) error {
 			}
 
 			field := new(Value)
-			err = field.UnmarshalNBT(t, r)
+			err = field.unmarshal(t, r, depth+1)
 			if err != nil {
 				return decodeErr{name, err}
 			}
